@@ -129,6 +129,14 @@ func main() {
 
 func execute(plan *Plan) int {
 	dir := filepath.Join(workDir, "run", fmt.Sprintf("%s-%s-%d", prop, tier, os.Getpid()))
+	// scratch of earlier runs of the same check that were kept for inspection
+	if old, _ := filepath.Glob(filepath.Join(workDir, "run", fmt.Sprintf("%s-%s-*", prop, tier))); len(old) > 0 {
+		for _, o := range old {
+			if st, err := os.Stat(o); err == nil && time.Since(st.ModTime()) > 2*time.Hour || os.Getenv("VERIF_CLEAN") != "" {
+				os.RemoveAll(o)
+			}
+		}
+	}
 	os.RemoveAll(dir)
 	if err := os.MkdirAll(dir, 0o755); err != nil {
 		fatalf("%v", err)
@@ -290,6 +298,21 @@ func (v *Verdict) finish(runs []*Run, keep *bool) int {
 		fmt.Fprintf(os.Stderr, "  violation: run=%s batch=%d case=%d api=%s: %s\n    %s\n", x.Run, x.Batch, x.Case, x.API, x.Msg, head(fmt.Sprint(x.Detail), 1500))
 	}
 
+	// classes of violations (api + message), for the human reader
+	classes := map[string]int{}
+	for _, x := range all {
+		classes[x.Run+" | "+x.API+" | "+head(x.Msg, 90)]++
+	}
+	var cls []string
+	for k, n := range classes {
+		cls = append(cls, fmt.Sprintf("%6d  %s", n, k))
+	}
+	sort.Sort(sort.Reverse(sort.StringSlice(cls)))
+	for i, l := range cls {
+		if i < 40 {
+			fmt.Fprintln(os.Stderr, "  class:", l)
+		}
+	}
 	minEvals := plan.MinEvals
 	if tier == "thorough" {
 		minEvals = plan.MinEvalsThorough
